@@ -371,7 +371,8 @@ def gen_folding(loader, check, replay_on=True):
                 t = tkit.mk_transformer(it)
                 a = mk_num(it, loader, "const_a", ta, "Va", t)
                 it.ctx.mark_pre(t, a)
-                return {"t": t, "a": a, "type0": (a.fields["value_type"].fields["_signed"], a.fields["value_type"].fields["_bit_width"])}
+                return {"t": t, "a": a, "type0": (a.fields["value_type"].fields["_signed"], a.fields["value_type"].fields["_bit_width"]),
+                        "value0": a.fields.get("value"), "name0": a.fields.get("name")}
 
             def run(it, st, op=op):
                 return it.call(tkit.method(it, st["t"], "unary_expr"), [[Token("UNARY_OP", op), st["a"]]], {})
@@ -390,6 +391,10 @@ def gen_folding(loader, check, replay_on=True):
                     now = (a.fields["value_type"].fields["_signed"], a.fields["value_type"].fields["_bit_width"])
                     check.ob(f"{name}#operand-type-not-mutated", pi, p.ctx.pc, now == p.state["type0"], replay=rp,
                              detail=f"type of the operand literal changed in place from {p.state['type0']} to {now}")
+                    # the folded result is a node of its own: the operand literal (which other expressions may hold as well) keeps its value and name
+                    same = a.fields.get("value") is p.state["value0"] and a.fields.get("name") == p.state["name0"] and p.value is not a
+                    check.ob(f"{name}#operand-not-mutated", pi, p.ctx.pc, same, replay=R("c09.fold_frame", op=op, ta=list(ta)),
+                             detail=f"operand literal now named {a.fields.get('name')!r} with value {a.fields.get('value')!r}; result is the operand: {p.value is a}")
 
     # ---- constant condition of ?: -------------------------------------------------------------------------------
     for ta in LIT_TYPES:
@@ -617,6 +622,22 @@ def _pyint_c(op, va, ta, vb, tb):
     ev, et = c_int_binop(op, z3.IntVal(va), ta, z3.IntVal(vb), tb)
     r = z3.simplify(ev)
     return (z3.is_true(r) if z3.is_true(r) or z3.is_false(r) else r.as_long()), et
+
+
+@replay.register("c09.fold_frame")
+def replay_fold_frame(a):
+    """real unary_expr on a real literal that is registered in the holder: afterwards the literal still has its value, type and name"""
+    from rzilcompiler.Transformer.RZILTransformer import RZILTransformer
+    from rzilcompiler.Transformer.Pures.Number import Number
+    from rzilcompiler.Transformer.ValueType import ValueType
+    from rzilcompiler.ArchEnum import ArchEnum
+    t = RZILTransformer(ArchEnum.HEXAGON)
+    ta = tuple(a["ta"])
+    n = t.add_op(Number("const_pos_5", 5, ValueType(*ta)))
+    before = (n.get_name(), n.get_val(), n.value_type.signed, n.value_type.bit_width)
+    r = t.unary_expr([Token("UNARY_OP", a["op"]), n])
+    after = (n.get_name(), n.get_val(), n.value_type.signed, n.value_type.bit_width)
+    return before != after or r is n, f"{a['op']}5:{tname(ta)}: operand literal before {before}, after {after}; the result is the operand itself: {r is n}"
 
 
 @replay.register("c09.fold")
